@@ -391,10 +391,23 @@ func (k *checker) account(q request, out outcome, idx int, resp *davx.Response, 
 				k.report(key(srv, res.Level, form, "available-name-missing"), fmt.Sprintf("%s lacks %s which the resource's own propname answer lists", where, n), q, out, n)
 			}
 		}
-	case "allprop", "empty", "empty-xmlct", "near-empty":
+	case "allprop", "empty", "empty-xmlct", "near-empty", "allprop-include":
+		included := map[string]bool{}
+		if q.Form == "allprop-include" {
+			for _, n := range q.Names {
+				included[name(n[0], n[1])] = true
+			}
+		}
 		for _, n := range order {
 			if len(answered[n]) > 1 {
 				k.report(key(srv, res.Level, form, "property-answered-twice"), fmt.Sprintf("%s answers %s %d times", where, n, len(answered[n])), q, out, n)
+			}
+			if included[n] && !ref.names[n] && len(answered[n]) == 1 && answered[n][0].code == 404 {
+				// a name of the include list the resource does not have:
+				// accounting for it under 404 and leaving it out are both
+				// left open
+				c.Observe("dont-care", "allprop+include: unavailable included name answered under 404", 1)
+				continue
 			}
 			if !self && !ref.names[n] {
 				k.report(key(srv, res.Level, form, "property-not-in-propname"), fmt.Sprintf("%s answers %s which propname does not list", where, n), q, out, n)
